@@ -54,8 +54,17 @@ Describe(t) ==
   THEN LET d == Decode(StartFen) IN Play(B!NewBoard(d.pos, d.np, d.fm), IF Len(t) >= 3 THEN SubSeq(t, 4, Len(t)) ELSE <<>>, 1)
   ELSE LET d == Decode(t[3] \o " " \o t[4] \o " " \o t[5] \o " " \o t[6] \o " " \o t[7] \o " " \o t[8]) IN
        Play(B!NewBoard(d.pos, d.np, d.fm), IF Len(t) >= 9 THEN SubSeq(t, 10, Len(t)) ELSE <<>>, 1)
-\* a well-formed position command (the scenarios send only those, plus the bare word "position")
-IsPosition(t) == Len(t) >= 2 /\ t[1] = "position" /\ (t[2] = "startpos" \/ (t[2] = "fen" /\ Len(t) >= 8))
+\* a position command the driver accepts: well-formed, the FEN decodes, every move is legal where it is played
+\* (anything else - also a move that leaves the king in check - lets the driver give up in an orderly way)
+RECURSIVE PlayOK(_, _, _)
+PlayOK(bd, toks, i) == i > Len(toks) \/ (LET m == MoveOf(toks[i]) IN B!CanPush(bd, m) /\ PlayOK(B!PushOp(bd, m), toks, i+1))
+WellFormedPosition(t) == Len(t) >= 2 /\ t[1] = "position" /\ (t[2] = "startpos" \/ (t[2] = "fen" /\ Len(t) >= 8))
+IsPosition(t) ==
+  /\ WellFormedPosition(t)
+  /\ IF t[2] = "startpos"
+     THEN LET d == Decode(StartFen) IN PlayOK(B!NewBoard(d.pos, d.np, d.fm), IF Len(t) >= 3 THEN SubSeq(t, 4, Len(t)) ELSE <<>>, 1)
+     ELSE LET d == Decode(t[3] \o " " \o t[4] \o " " \o t[5] \o " " \o t[6] \o " " \o t[7] \o " " \o t[8]) IN
+          d.ok /\ PlayOK(B!NewBoard(d.pos, d.np, d.fm), IF Len(t) >= 9 THEN SubSeq(t, 10, Len(t)) ELSE <<>>, 1)
 Has(t, w) == \E i \in 1..Len(t) : t[i] = w
 \* a go command the driver accepts (numeric arguments present and numeric)
 GoOK(t) == \A i \in 1..Len(t) : t[i] \in {"depth", "movetime", "wtime", "btime", "movestogo"} => (i < Len(t) /\ ParseNat(t[i+1]) # -1)
